@@ -3,6 +3,7 @@ package j5convert
 import (
 	"errors"
 	"fmt"
+	"math"
 	"unicode"
 
 	"buf.build/gen/go/bufbuild/protovalidate/protocolbuffers/go/buf/validate"
@@ -471,6 +472,13 @@ func buildField(ww *conversionVisitor, node sourcewalk.FieldNode) (*descriptorpb
 				return nil, fmt.Errorf("integer rules: exclusive maximum requires maximum to be set")
 			}
 
+			if err := checkIntegerBound(st.Integer.Format, "minimum", st.Integer.Rules.Minimum); err != nil {
+				return nil, err
+			}
+			if err := checkIntegerBound(st.Integer.Format, "maximum", st.Integer.Rules.Maximum); err != nil {
+				return nil, err
+			}
+
 			rules := &validate.FieldConstraints{}
 
 			switch st.Integer.Format {
@@ -820,6 +828,30 @@ func buildField(ww *conversionVisitor, node sourcewalk.FieldNode) (*descriptorpb
 		return nil, fmt.Errorf("unknown schema type %T", st)
 	}
 
+}
+
+// checkIntegerBound rejects a minimum / maximum the field's integer type cannot
+// hold: the bound is converted to that type for the validation rule, and a
+// silent wrap-around would constrain the field to the wrong range.
+func checkIntegerBound(format schema_j5pb.IntegerField_Format, name string, bound *int64) error {
+	if bound == nil {
+		return nil
+	}
+	var ok bool
+	switch format {
+	case schema_j5pb.IntegerField_FORMAT_INT32:
+		ok = *bound >= math.MinInt32 && *bound <= math.MaxInt32
+	case schema_j5pb.IntegerField_FORMAT_UINT32:
+		ok = *bound >= 0 && *bound <= math.MaxUint32
+	case schema_j5pb.IntegerField_FORMAT_UINT64:
+		ok = *bound >= 0
+	default:
+		ok = true
+	}
+	if !ok {
+		return fmt.Errorf("integer rules: %s %d is out of range for %s", name, *bound, format)
+	}
+	return nil
 }
 
 // Copies the J5 extension object to the equivalent protoreflect extension type
